@@ -269,6 +269,8 @@ for i in range(150 if not thorough else 3000):
                  call=txt, output=NAMES[j], observed=obs[j], expected=vals[j])
 
 missing = [k for k in (atom_key(a) for a in pool.with_sld) if k not in seen_atoms]
+for _t in sorted(set(ARG_MODIFIED))[:3]:
+    fail("C03:argument-modified", _t, call=_t)
 json.dump(dict(cases=cases, meta=meta, direct_fails=fails, stats=stats, n_with_sld=len(pool.with_sld),
                n_none=len(pool.none), n_bc_only=len(pool.bc_only), atoms_not_covered=missing,
                n_tables=len(pool.tab)), sys.stdout)
